@@ -490,6 +490,29 @@ def handleSafeCalls (j : Json) : Option Json := do
   some (Json.mkObj [("names", Json.arr (names.map Json.str).toArray),
                     ("reaches_effect", Json.arr ((names.filter (fun n => C16.SafeCalls.reachesEffect defs k n)).map Json.str).toArray)])
 
+def handleOrient (j : Json) : Option Json := do
+  let br (k : String) : Option Orient.Branch := do
+    let a ← (field? j k) >>= getArr?
+    if a.size != 5 then none
+    some ⟨a[0]! == Json.bool true, a[1]! == Json.bool true, ← getNat? a[2]!, a[3]! == Json.bool true, ← getNat? a[4]!⟩
+  let b ← br "body"
+  let o ← br "orelse"
+  some (Json.mkObj [("prefer", Json.bool (Orient.preferOrelse b o)), ("prefer_swapped", Json.bool (Orient.preferOrelse o b))])
+
+def handleWalkW (j : Json) : Option Json := do
+  let ns ← (field? j "nodes") >>= getArr?
+  let nodes ← ns.toList.mapM (fun n => do
+    let a ← getArr? n
+    some ((← getStr? a[0]!), (← getNat? a[1]!)))
+  let hs ← (field? j "hier") >>= getArr?
+  let hier ← hs.toList.mapM (fun h => do
+    let a ← getArr? h
+    some ((← getStr? a[0]!), (← (← getArr? a[1]!).toList.mapM getStr?)))
+  let tms ← (field? j "templates") >>= getArr? >>= (fun a => a.toList.mapM getStr?)
+  let isSub (t : String) (tm : String) : Bool := t == tm || ((hier.lookup t).getD []).contains tm
+  let out := C12.WalkW.walk nodes isSub (fun _ _ => true) tms
+  some (Json.mkObj [("order", Json.arr (out.map (fun (n : Nat) => Json.num n)).toArray)])
+
 def handleCharnos (j : Json) : Option Json := do
   let src ← (field? j "src") >>= getStr?
   let chars := src.toList
@@ -680,6 +703,8 @@ def dispatch (j : Json) : Json :=
   | some "layout" => (handleLayout j).getD bad
   | some "blanklines" => (handleBlankLines j).getD bad
   | some "charnos" => (handleCharnos j).getD bad
+  | some "walkw" => (handleWalkW j).getD bad
+  | some "orient" => (handleOrient j).getD bad
   | some "safecalls" => (handleSafeCalls j).getD bad
   | some "windows" => (handleWindows j).getD bad
   | some "minimize" => (handleMinimize j).getD bad
